@@ -1233,9 +1233,6 @@ func (r *vfRun) reservePost(opi int, op vfOp, ctx ml.Context, err error, before 
 	if !same {
 		r.l2("reserve-pass-changed-metadata", fmt.Sprintf("op %d (%s)", opi, op.String()))
 	}
-	if c.curLoc != 0 || c.curCellRange.min != 0 || c.curCellRange.max != len(c.cells)-1 {
-		r.l2("reserve-pass-range", fmt.Sprintf("op %d: curLoc %d curCellRange %v over %d cells", opi, c.curLoc, c.curCellRange, len(c.cells)))
-	}
 	if c.keys[r.layers[0]] == nil {
 		if r.out != nil {
 			r.out.Count("reserve_passes_before_first_put")
